@@ -272,6 +272,7 @@ def run(prog, chk):
     subtree_start(prog, chk)
     double_rotation_table(prog, chk)
     slots_by_reference(prog, chk)
+    parent_slot_by_identity(prog, chk, "C01.o")
     balance_bookkeeping(prog, chk)
     C.parent_pairing(prog, chk, "C01.h", TREE)
     from .. import containers
@@ -671,3 +672,61 @@ def slots_by_reference(prog, chk):
                                     "into that variable, the tree's own child pointer still names the old top - the node rotated in (and its "
                                     "subtree) can no longer be found by key although iteration still shows it" % (
                                         q.no_casts(f.r(c))[:40], q.no_casts(f.r(args[k]))[:30], g.short), evals=1)
+
+
+def parent_slot_by_identity(prog, chk, rid):
+    """removal locates the child slot of the parent that holds the removed node.  With equal keys (MultiMap) a rotation can put an entry
+    to the LEFT of an equal-key parent, so the slot can only be told by comparing the node pointer with the parent's child pointers;
+    a key comparison picks the wrong slot, detaches a live subtree and leaves the destroyed node linked into the tree."""
+    chk.rule(rid, "TYPE/DOM: in MultiMap::remove every choice between `&parent->left` and `&parent->right` for the slot of the removed node "
+                  "is governed by a pointer-identity test against the parent's child pointers, never by a key comparison", floor=1)
+    n = 0
+    for tn, fs in sorted(C.class_insts(prog, "MultiMap").items()):
+        for f in fs:
+            if f.cls != tn or f.short != "remove" or not f.blocks:
+                continue
+            for i, nd in enumerate(f.nodes):
+                if nd["k"] != "ConditionalOperator" or len(nd["c"]) != 3:
+                    continue
+                a, b = q.no_casts(f.r(nd["c"][1])), q.no_casts(f.r(nd["c"][2]))
+                m1, m2 = re.match(r"^&(.+)->(left|right)$", a), re.match(r"^&(.+)->(left|right)$", b)
+                if not m1 or not m2 or m1.group(1) != m2.group(1) or m1.group(2) == m2.group(2):
+                    continue
+                _slot_choice(chk, rid, f, nd["c"][0], i, m1.group(1))
+                n += 1
+            # the same choice written as an if/else that assigns the slot
+            for blk in f.blocks.values():
+                c = blk.get("cond")
+                if c is None or len(blk["succ"]) != 2 or blk.get("tk") == "SwitchStmt" or None in blk["succ"]:
+                    continue
+                arms = []
+                for s_ in blk["succ"]:
+                    got = None
+                    for st in q.stores(f):
+                        if st.rhs is not None and st.op == "=" and (f.node_pos(st.node) or (None,))[0] == s_:
+                            m = re.match(r"^&(.+)->(left|right)$", q.no_casts(f.r(st.rhs)))
+                            if m:
+                                got = (q.no_casts(f.r(st.lhs)), m.group(1), m.group(2))
+                    arms.append(got)
+                if arms[0] and arms[1] and arms[0][0] == arms[1][0] and arms[0][1] == arms[1][1] and arms[0][2] != arms[1][2]:
+                    _slot_choice(chk, rid, f, c, f.strip(c), arms[0][1])
+                    n += 1
+    if n == 0:
+        raise AnalysisBroken("MultiMap::remove: no choice between &parent->left and &parent->right found")
+
+
+def _slot_choice(chk, rid, f, cond, at, par):
+    cn = f.nodes[f.strip(cond)]
+    while cn["k"] == "UnaryOperator" and cn.get("op") == "!" and cn["c"]:
+        cn = f.nodes[f.strip(cn["c"][0])]
+    txt = q.no_casts(f.r(f.strip(cond)))
+    ident = cn["k"] == "BinaryOperator" and cn.get("op") in ("==", "!=") and len(cn["c"]) == 2 and \
+        any(re.fullmatch(re.escape(par) + r"->(left|right)", q.no_casts(f.r(x))) for x in cn["c"]) and \
+        all("*" in (f.nodes[f.strip(x)].get("t") or "") for x in cn["c"])
+    if ident:
+        chk.ok(rid, f, "slot of the removed node chosen by `%s`" % txt[:50], f.where(at), "pointer identity against the parent's child pointers", evals=2)
+    else:
+        chk.bad(rid, f, "parent-slot-by-key", f.where(at),
+                "the slot of the removed node is chosen by `%s`: after a rotation an entry can be the left child of a parent with an EQUAL key, "
+                "the test then names the other slot - a live subtree is detached and the destroyed node stays linked in the tree "
+                "(insert 5,5,5; remove(begin()); find(5) compares against the destroyed entry)" % txt[:60], evals=2)
